@@ -82,15 +82,23 @@ func (t Translator) objFromArraiDict(v rel.Dict) (map[string]interface{}, error)
 	maps := make(map[string]interface{})
 	for e := v.DictEnumerator(); e.MoveNext(); {
 		key, value := e.Current()
-		keydata, err := t.FromArrai(key)
-		if err != nil {
-			return nil, err
+		// The empty string is the empty set, which FromArrai translates to {} or null.
+		keystr := ""
+		if s, is := key.(rel.Set); !is || s.IsTrue() {
+			keydata, err := t.FromArrai(key)
+			if err != nil {
+				return nil, err
+			}
+			var ok bool
+			if keystr, ok = keydata.(string); !ok {
+				return nil, errors.Errorf("FromArrai: dict key %v must be a string", key)
+			}
 		}
 		valuedata, err := t.FromArrai(value)
 		if err != nil {
 			return nil, err
 		}
-		maps[keydata.(string)] = valuedata
+		maps[keystr] = valuedata
 	}
 	return maps, nil
 }
